@@ -217,16 +217,29 @@ class ReadUint64(Contract):
 
     def ensures(self, c, old, result, file):
         d, p = old.data(file), old.pos(file)
+        mode = getattr(getattr(c, "eng", None), "ctx_mode", None)
+        # the same facts through the opaque NUMBER functions (spec.primitives.NV / NL), for callers that walk lists
+        full_o = And(p < L(d), p + SP.NL(d, p) <= L(d))
+        opaque = [
+            ("opaque-number", Implies(full_o, And(result == SP.NV(d, p), c.pos(file) == p + SP.NL(d, p)))),
+            ("opaque-short-read-consumes-rest", Implies(Not(full_o), c.pos(file) == L(d))),
+        ]
+        common = [
+            ("range", And(result >= 0, result < U64)),
+            ("progress", c.pos(file) > p),
+            ("frame-data", eq(c.data(file), d)),
+        ]
+        if mode == "assume" and getattr(c.eng.contract, "opaque_numbers", False):
+            return opaque + common
+        if mode == "prove":
+            c.assume(SP.reveal_number(d, p))  # definition of the opaque NUMBER functions at (d, p)
         n = SP.number_extra(nth(d, p))
         full = L(d) - p >= 1 + n
         return [
             ("value", Implies(full, result == SP.number_value(d, p))),
             ("consumed", Implies(full, c.pos(file) == p + 1 + n)),
             ("short-read-consumes-rest", Implies(Not(full), c.pos(file) == L(d))),
-            ("range", And(result >= 0, result < U64)),
-            ("progress", c.pos(file) > p),
-            ("frame-data", eq(c.data(file), d)),
-        ]
+        ] + common + opaque
 
 
 @contract
